@@ -152,61 +152,7 @@ pub fn check<I: Inputs>(vt: &'static Vt<I>, ctx: &Ctx) -> DeclReport {
     let info = DeclInfo::of(vt);
     let m = vt.model;
     let sig = |d: &Doc, w: &str| format!("C04|{}|{}|{}|{w}|sans={}|vals={}", I::NAME, fmt_name(d.fmt), pos_name(d.pos), san_names(m), val_names(m));
-    let eval = |d: &Doc| -> Outcome {
-        if d.pos == Pos::MapKey {
-            // keys: the reference newtype has no Ord; checked by the constructor-fixed-point oracle
-            return eval_key(vt, d, &sig);
-        }
-        let reference = no_panic(|| de_ref(d.fmt, d.pos, &d.bytes));
-        let Ok(reference) = reference else { return Outcome::ok(false, "reference-decoder-panicked") };
-        let got = no_panic(|| de(d.fmt, d.pos, &d.bytes));
-        let nested = d.pos != Pos::Top;
-        match reference {
-            Err(_) => match got {
-                Ok(Err(_)) => Outcome::ok(false, "undecodable"),
-                Ok(Ok(v)) => Outcome::fail(nested, "undecodable", sig(d, "accepts-document-the-inner-type-rejects"), "Err".into(), format!("Ok({:?})", v.iter().map(|x| x.to_json()).collect::<Vec<_>>())),
-                Err(p) => Outcome::fail(nested, "undecodable", sig(d, "panic"), "Err".into(), format!("panic: {}", p.lines().next().unwrap_or(""))),
-            },
-            Ok(raws) => {
-                let mut expected: Result<Vec<I>, ErrR> = Ok(vec![]);
-                let mut changed = false;
-                for r in &raws {
-                    match no_panic(|| (vt.ctor)(r.clone())) {
-                        Ok(Ok(v)) => {
-                            changed |= !v.same(r);
-                            if let Ok(e) = &mut expected {
-                                e.push(v)
-                            }
-                        }
-                        Ok(Err(e)) => {
-                            expected = Err(e);
-                            break;
-                        }
-                        Err(_) => return Outcome::ok(false, "ctor-panicked"),
-                    }
-                }
-                let class = match (&expected, changed) {
-                    (Err(_), _) => "decodes-constructor-rejects",
-                    (Ok(_), true) => "decodes-accepted-sanitized",
-                    (Ok(_), false) => "decodes-accepted",
-                };
-                let nontrivial = expected.is_err() || changed || nested;
-                match (expected, got) {
-                    (_, Err(p)) => Outcome::fail(nontrivial, class, sig(d, "panic"), "no panic".into(), format!("panic: {}", p.lines().next().unwrap_or(""))),
-                    (Err(e), Ok(Ok(v))) => Outcome::fail(nontrivial, class, sig(d, "yields-value-the-constructor-rejects"), format!("Err (constructor: {})", e.show()), format!("Ok({:?})", v.iter().map(|x| x.to_json()).collect::<Vec<_>>())),
-                    (Err(_), Ok(Err(_))) => Outcome::ok(nontrivial, class),
-                    (Ok(e), Ok(Ok(v))) => {
-                        if e.len() == v.len() && e.iter().zip(v.iter()).all(|(a, b)| a.same(b)) {
-                            Outcome::ok(nontrivial, class)
-                        } else {
-                            Outcome::fail(nontrivial, class, sig(d, "wrong-value"), format!("Ok({:?})", e.iter().map(|x| x.to_json()).collect::<Vec<_>>()), format!("Ok({:?})", v.iter().map(|x| x.to_json()).collect::<Vec<_>>()))
-                        }
-                    }
-                    (Ok(e), Ok(Err(err))) => Outcome::fail(nontrivial, class, sig(d, "rejects-valid-document"), format!("Ok({:?})", e.iter().map(|x| x.to_json()).collect::<Vec<_>>()), format!("Err({err})")),
-                }
-            }
-        }
-    };
+    let eval = |d: &Doc| -> Outcome { eval_doc(vt, d) };
     let docs = documents(vt, ctx);
     // random: byte-level mutation of generated documents + documents of random values
     let base: Vec<Doc> = docs.iter().step_by((docs.len() / 200).max(1)).cloned().collect();
@@ -263,6 +209,66 @@ fn eval_key<I: Inputs>(vt: &'static Vt<I>, d: &Doc, sig: &dyn Fn(&Doc, &str) -> 
                 }
             }
             Outcome::ok(true, "map-key-accepted")
+        }
+    }
+}
+
+/// one case of C04 (also the body of the fuzz target)
+pub fn eval_doc<I: Inputs>(vt: &'static Vt<I>, d: &Doc) -> Outcome {
+    let (Some(de), Some(de_ref)) = (vt.de, vt.de_ref) else { return Outcome::ok(false, "irrelevant") };
+    let m = vt.model;
+    let sig = |d: &Doc, w: &str| format!("C04|{}|{}|{}|{w}|sans={}|vals={}", I::NAME, fmt_name(d.fmt), pos_name(d.pos), san_names(m), val_names(m));
+    if d.pos == Pos::MapKey {
+        // keys: the reference newtype has no Ord; checked by the constructor-fixed-point oracle
+        return eval_key(vt, d, &sig);
+    }
+    let reference = no_panic(|| de_ref(d.fmt, d.pos, &d.bytes));
+    let Ok(reference) = reference else { return Outcome::ok(false, "reference-decoder-panicked") };
+    let got = no_panic(|| de(d.fmt, d.pos, &d.bytes));
+    let nested = d.pos != Pos::Top;
+    match reference {
+        Err(_) => match got {
+            Ok(Err(_)) => Outcome::ok(false, "undecodable"),
+            Ok(Ok(v)) => Outcome::fail(nested, "undecodable", sig(d, "accepts-document-the-inner-type-rejects"), "Err".into(), format!("Ok({:?})", v.iter().map(|x| x.to_json()).collect::<Vec<_>>())),
+            Err(p) => Outcome::fail(nested, "undecodable", sig(d, "panic"), "Err".into(), format!("panic: {}", p.lines().next().unwrap_or(""))),
+        },
+        Ok(raws) => {
+            let mut expected: Result<Vec<I>, ErrR> = Ok(vec![]);
+            let mut changed = false;
+            for r in &raws {
+                match no_panic(|| (vt.ctor)(r.clone())) {
+                    Ok(Ok(v)) => {
+                        changed |= !v.same(r);
+                        if let Ok(e) = &mut expected {
+                            e.push(v)
+                        }
+                    }
+                    Ok(Err(e)) => {
+                        expected = Err(e);
+                        break;
+                    }
+                    Err(_) => return Outcome::ok(false, "ctor-panicked"),
+                }
+            }
+            let class = match (&expected, changed) {
+                (Err(_), _) => "decodes-constructor-rejects",
+                (Ok(_), true) => "decodes-accepted-sanitized",
+                (Ok(_), false) => "decodes-accepted",
+            };
+            let nontrivial = expected.is_err() || changed || nested;
+            match (expected, got) {
+                (_, Err(p)) => Outcome::fail(nontrivial, class, sig(d, "panic"), "no panic".into(), format!("panic: {}", p.lines().next().unwrap_or(""))),
+                (Err(e), Ok(Ok(v))) => Outcome::fail(nontrivial, class, sig(d, "yields-value-the-constructor-rejects"), format!("Err (constructor: {})", e.show()), format!("Ok({:?})", v.iter().map(|x| x.to_json()).collect::<Vec<_>>())),
+                (Err(_), Ok(Err(_))) => Outcome::ok(nontrivial, class),
+                (Ok(e), Ok(Ok(v))) => {
+                    if e.len() == v.len() && e.iter().zip(v.iter()).all(|(a, b)| a.same(b)) {
+                        Outcome::ok(nontrivial, class)
+                    } else {
+                        Outcome::fail(nontrivial, class, sig(d, "wrong-value"), format!("Ok({:?})", e.iter().map(|x| x.to_json()).collect::<Vec<_>>()), format!("Ok({:?})", v.iter().map(|x| x.to_json()).collect::<Vec<_>>()))
+                    }
+                }
+                (Ok(e), Ok(Err(err))) => Outcome::fail(nontrivial, class, sig(d, "rejects-valid-document"), format!("Ok({:?})", e.iter().map(|x| x.to_json()).collect::<Vec<_>>()), format!("Err({err})")),
+            }
         }
     }
 }
